@@ -588,6 +588,7 @@ class Array(metaclass=MetaArray):
             index = (index,)
         cls = self.__class__
         if hasattr(self, "_offsets"):
+            bound_check(index, self._shape)
             offset = self._offset + self._offsets[index]
         else:
             bound_check(index, self._shape)
@@ -606,6 +607,7 @@ class Array(metaclass=MetaArray):
             self[index]._update(value)
         else:
             if hasattr(self, "_offsets"):
+                bound_check(index, self._shape)
                 offset = self._offset + self._offsets[index]
             else:
                 bound_check(index, self._shape)
@@ -636,6 +638,7 @@ class Array(metaclass=MetaArray):
             index = (index,)
         cls = self.__class__
         if hasattr(self, "_offsets"):
+            bound_check(index, self._shape)
             offset = self._offset + self._offsets[index]
         else:
             bound_check(index, self._shape)
